@@ -1022,7 +1022,7 @@ def gen_cases(tier, rng, info):
                      'format.name$ arguments); freshhist: %d concrete histories over tests/data' % (
                          n_memo, n_world, maxh, len(world) - n_world, big, len(fresh_cases)))
     # spread the expensive histories evenly through the list so that the worker pool shares them
-    heavy = world[n_world:] + fresh_cases + world[:n_world]
+    heavy = world[:48] + world[n_world:] + fresh_cases + world[48:n_world]
     out = []
     every = max(1, len(cases) // max(1, len(heavy)))
     hi = 0
